@@ -14,4 +14,15 @@ def plan(tier, ctx):
         INFO[k] = list(dict.fromkeys(list(INFO.get(k, [])) + list(C14_e2.INFO.get(k, []))))
     INFO['bounds'] = str(C14_e1.INFO.get('bounds', '')) + ' | E2: ' + str(C14_e2.INFO.get('bounds', ''))
     INFO['outside'] = str(C14_e1.INFO.get('outside', '')) + ' | E2: ' + str(C14_e2.INFO.get('outside', ''))
-    return jobs + list(C14_e2.plan(tier, ctx))
+    # "no structure built on it dereferences a reclaimed node": the mpmc fifo's pop/push against the adversarial environment of the
+    # C13 step harness, with reclamation as a REAL free() so that CBMC's pointer checks flag every access to a reclaimed node
+    SRC = VERIF + '/e1/C13/mpmc_e1.c'
+    uaf = []
+    for h, loop in (('h_trypop', 'mpmc_fifo_trypop.0'), ('h_push', 'mpmc_fifo_push.0')):
+        uaf += pair('e1.mpmc_uaf.' + h[2:], [SRC], h, unwind=7, unwindset={loop: 4}, timeout=1500, mem_gb=12,
+                    defines=['NP=3', 'ENV_BUDGET=2', 'PRE_ENV=2', 'SPUR_BUDGET=0', 'ENV_PER_POINT=1', 'REAL_FREE'],
+                    meta={'engine': 'E1 cbmc-src', 'bounds': 'one real mpmc_fifo pop/push, 3 environment nodes as heap objects, 2 environment actions during the operation, 2 before; reclamation = free(); hazard-pointer contract as in C13'})
+    INFO['functions'] = list(INFO['functions']) + ['mpmc_fifo_trypop', 'mpmc_fifo_push', 'hazard_pointer_using', 'hazard_pointer_done_using']
+    INFO['stubs'] = list(INFO['stubs']) + ['e1.mpmc_uaf.*: the environment of the C13 step harness (e1/C13/mpmc_e1.c, -DREAL_FREE): other threads pop, push, link and reclaim; a retired node not covered by a hazard pointer published before its retirement is free()d']
+    INFO['bounds'] = INFO['bounds'] + ' | mpmc use-after-reclaim: one pop/push, 3 environment nodes, 2 environment actions'
+    return jobs + uaf + list(C14_e2.plan(tier, ctx))
